@@ -150,6 +150,48 @@ async def run_async_one(peer, sched):
     return r, el
 
 
+def run_tiny(mode, peer, timeout_s, stray):
+    """a call with a very small session timeout against a silent agent (optionally one stray datagram at once);
+    returns (result, elapsed) or (None, None) when the call is still blocked after 2 s"""
+    import threading
+    box = {}
+
+    def plan(dg):
+        req = peer.decode(dg)
+        if req["pdu_type"] == 0 and not req["varbinds"]:
+            return [peer.state.report(req["request_id"], req["msg_id"], auth=bool(peer.state.auth_alg))]
+        return [build(peer, req, "s", 1)] if stray else []
+
+    def sync_body():
+        from gufo.snmp.sync_client import SnmpSession
+        agent = e2e.ThreadAgent(lambda dg: [(0, x) for x in plan(dg)])
+        try:
+            s = SnmpSession("127.0.0.1", port=agent.port, timeout=timeout_s, **session_kwargs(peer))
+            t0 = time.monotonic()
+            box["r"] = e2e.ncall(lambda: s.get("1.3.6.1.2.1.1.3.0"))
+            box["el"] = time.monotonic() - t0
+        finally:
+            agent.stop = True
+
+    def async_body():
+        async def main(port):
+            from gufo.snmp.async_client import SnmpSession
+            s = SnmpSession("127.0.0.1", port=port, timeout=timeout_s, **session_kwargs(peer))
+            t0 = time.monotonic()
+            try:
+                r = ("ok", await s.get("1.3.6.1.2.1.1.3.0"))
+            except BaseException as ex:  # noqa: BLE001
+                r = ("exc", type(ex).__name__, isinstance(ex, Exception))
+            box["r"], box["el"] = r, time.monotonic() - t0
+        e2e.run_async(main, plan)
+    t = threading.Thread(target=sync_body if mode == "sync" else async_body, daemon=True)
+    t.start()
+    t.join(2.0)
+    if t.is_alive() or "r" not in box:
+        return None, None
+    return box["r"], box["el"]
+
+
 def outcome(r):
     if r[0] == "ok":
         return "delivered" if r[1] == 4242 else f"wrong value {r[1]!r}"
@@ -226,6 +268,23 @@ def run(chk, model_ok=True):
 
     execute(cases)
     bad = 0
+    # very small session timeouts (the socket option has microsecond resolution and 0 means "no timeout")
+    n_tiny = 0
+    for mode in ("sync", "async"):
+        for T_s in (5e-7, 3e-6, 2e-4, 0.002, 0.02):
+            for stray in (False, True):
+                peer = peers[n_tiny % 2]
+                n_tiny += 1
+                r, el = run_tiny(mode, peer, T_s, stray)
+                line = f"# tiny timeout {T_s} s, {mode}, {peer.label}, stray={stray}"
+                if r is None:
+                    chk.violation("oracle", f"{mode} {peer.label}: get() with timeout={T_s} s against a silent agent is still blocked after 2 s",
+                                  {"kind": "oracle", "lines": [line], "timeout_s": T_s, "mode": mode, "stray": stray})
+                    bad += 1
+                elif outcome(r) != "timeout" or el > T_s + 0.25:
+                    chk.violation("oracle", f"{mode} {peer.label}: get() with timeout={T_s} s ended as {outcome(r)} after {el:.3f}s",
+                                  {"kind": "oracle", "lines": [line], "timeout_s": T_s, "mode": mode, "stray": stray})
+                    bad += 1
     hist = {}
     distinct = set()
     lines = []
@@ -268,7 +327,7 @@ def run(chk, model_ok=True):
                                    "model": [mo], "broken": ["correspondence recvsched: Lean Timing.syncRecv / asyncRecv vs /repo"]},
                                   no_input=True)
     chk.coverage.update({
-        "evaluations": len(cases),
+        "evaluations": len(cases) + n_tiny, "tiny_timeout_cases": n_tiny,
         "distinct_nontrivial": len(distinct),
         "rule": f"arrival schedules on a {int(TICK * 1000)} ms grid against a session timeout of {T_TICKS} ticks: silence, reply before / after "
                 "the deadline, 1..5 non-matching datagrams at random ticks with and without a reply before / after the deadline, "
